@@ -58,7 +58,7 @@ def scripts(quick, tmp):
                     rf = os.path.join(tmp, 'ready.%d' % n)
                     target = {'cooperative': 'cooperative', 'stubborn': 'stubborn', 'long_sleep': 'long_sleep', 'gil_hog': 'gil_hog',
                               'stopped': 'cooperative', 'finished': 'quick_ret', 'not-run': 'quick_ret', 'idle': 'quick_ret',
-                              'dying': 'raise_soon', 'dying-now': 'raise_soon', 'lingering': 'linger_ret'}[beh]
+                              'dying': 'raise_soon', 'dying-now': 'raise_soon', 'lingering': 'linger_ret', 'sigign': 'stubborn_sigign'}[beh]
                     create = {'op': 'create', 'var': 'w', 'kind': kind, 'target': target, 'kwargs': {'ready_file': rf}}
                     sc = [create]
                     if beh == 'not-run':
